@@ -300,11 +300,14 @@ def _loops_and_epsilon_greedy(rep, tier, seed):
             ctx.check(len(shim.choices[0][1]) == 4, "random-action-drawn-from-all-actions-of-the-row")
     e2.run("value_policy.epsilon_greedy_policy[tuple observation]", eps_prog_tuple, fn="rl_blox.blox.value_policy.epsilon_greedy_policy")
 
-    def loop_prog(which, K, start):
+    def loop_prog(which, K, start, sym_schedule=False):
         def prog(ctx):
-            tr = L.run_dqn_family(ctx, which, K, start, symbolic=("learning_starts", "rolls"))
+            tr = L.run_dqn_family(ctx, which, K, start, symbolic=("learning_starts", "rolls") + (("schedule",) if sym_schedule else ()))
             total = start + K
             eps = np.asarray(linear_schedule(total))
+            if sym_schedule:
+                calls = getattr(tr.w, "schedule_calls", [])
+                ctx.check(len(calls) >= 1 and all(int(c[0]) == total for c in calls), "loop:exploration-schedule-spans-the-whole-run(total_timesteps)")
             rolls = None
             import importlib
             # the shim instance is not reachable from the trace: recover the rolls from the path's symbols by name order
@@ -320,9 +323,12 @@ def _loops_and_epsilon_greedy(rep, tier, seed):
                 if from_greedy:
                     ctx.check(greedy[k]["args"][0] is tr.cfg["q"], "loop:greedy-action-uses-the-current-online-estimate")
                     ctx.check(W.tagval(greedy[k]["args"][1]) == W.tagval(st["obs"]), "loop:greedy-action-uses-the-current-observation")
-                roll = tr.w.rolls[s_] if getattr(tr.w, "rolls", None) is not None else None
+                rolls_ = getattr(tr.w, "rolls", None)
+                # the pre-drawn rolls are i.i.d.: whether they are indexed by the absolute step or by the step of this
+                # call is an implementation detail; the scheduled epsilon is the one of the ABSOLUTE step
+                roll = None if rolls_ is None else (rolls_[s_] if len(rolls_) == total else (rolls_[k] if len(rolls_) == K else None))
                 if roll is not None:
-                    explore = (roll < float(eps[s_]))
+                    explore = (roll < (tr.w.schedule_eps[s_] if sym_schedule else float(eps[s_])))
                     if which != "dqn":
                         explore = (s_ < ls) | explore if not isinstance(s_ < ls, bool) or not isinstance(explore, bool) else ((s_ < ls) or explore)
                     ctx.check(from_sampler == explore, "loop:explores-exactly-when-roll<scheduled-epsilon(or-warm-up),-acts-greedily-otherwise")
@@ -330,7 +336,9 @@ def _loops_and_epsilon_greedy(rep, tier, seed):
     for which in ("dqn", "nature_dqn", "ddqn", "per"):
         for K in ([2, 3] if tier == "quick" else [2, 3, 4]):
             e2.run(f"action-selection:train_{which}[K={K}]", loop_prog(which, K, 0), fn=f"rl_blox.algorithm.{which}", site_of=lambda label, which=which: f"train_{which}:{label}")
-    rep.bounds["loops"] = "DQN family, K<=4 steps, symbolic epsilon rolls in [0,1), learning_starts symbolic; epsilon_greedy_policy: symbolic epsilon in [0,1] and roll"
+        # resumed training (global_step > 0): the schedule continues at the absolute step, it does not restart
+        e2.run(f"action-selection:train_{which}[K=2,global_step=3,symbolic schedule]", loop_prog(which, 2, 3, True), fn=f"rl_blox.algorithm.{which}", site_of=lambda label, which=which: f"train_{which}:{label}")
+    rep.bounds["loops"] = "DQN family, K<=4 steps, global_step in {0,3}, symbolic epsilon rolls in [0,1), learning_starts symbolic; epsilon_greedy_policy: symbolic epsilon in [0,1] and roll"
     rep.extra["e2_paths"] = rep.paths
 
 
